@@ -502,6 +502,7 @@ class MetaDataReplace(MosFile):
                         break
             else:
                 target, target_index = find_child(parent=ro.base_tag, child_tag=source.tag)
+            source = copy.deepcopy(source)
             if target is None:
                 insert_node(parent=ro.base_tag, node=source, index=len(ro.base_tag))
             else:
@@ -556,7 +557,7 @@ class StoryAppend(MosFile):
         Merge into the :class:`RunningOrder` object provided.
         """
         for story in self.stories:
-            append_node(ro.base_tag, story.xml)
+            append_node(ro.base_tag, copy.deepcopy(story.xml))
         return ro
 
     def inspect(self):
@@ -751,7 +752,7 @@ class StoryInsert(MosFile):
                 logger.warning(msg)
                 warnings.warn(msg, DuplicateStoryWarning)
                 continue
-            insert_node(parent=ro.base_tag, node=new_story.xml, index=i)
+            insert_node(parent=ro.base_tag, node=copy.deepcopy(new_story.xml), index=i)
             ro_story_ids.add(new_story.id)
             i += 1
         return ro
@@ -836,7 +837,7 @@ class ItemInsert(MosFile):
                     f"{self.__class__.__name__} error in {self.message_id} - target item not found"
                 )
         for i, item in enumerate(self.items, start=item_index):
-            insert_node(parent=story, node=item.xml, index=i)
+            insert_node(parent=story, node=copy.deepcopy(item.xml), index=i)
         return ro
 
     def inspect(self):
@@ -1097,7 +1098,7 @@ class StoryReplace(MosFile):
             )
         remove_node(parent=ro.base_tag, node=story)
         for i, new_story in enumerate(self.stories, start=story_index):
-            insert_node(parent=ro.base_tag, node=new_story.xml, index=i)
+            insert_node(parent=ro.base_tag, node=copy.deepcopy(new_story.xml), index=i)
         return ro
 
     def inspect(self):
@@ -1176,7 +1177,7 @@ class ItemReplace(MosFile):
 
         remove_node(parent=story, node=item)
         for i, item in enumerate(self.items, start=item_index):
-            insert_node(parent=story, node=item.xml, index=i)
+            insert_node(parent=story, node=copy.deepcopy(item.xml), index=i)
         return ro
 
     def inspect(self):
@@ -1305,7 +1306,7 @@ class RunningOrderEnd(MosFile):
         ``roDelete`` message to the ``roCreate`` tag in the running order.
         """
         mosromgrmeta = SubElement(ro.xml, 'mosromgrmeta')
-        mosromgrmeta.append(self.base_tag)
+        mosromgrmeta.append(copy.deepcopy(self.base_tag))
         return ro
 
     def inspect(self):
@@ -1418,7 +1419,7 @@ class EAStoryReplace(ElementAction):
             )
         remove_node(parent=ro.base_tag, node=story)
         for i, new_story in enumerate(self.stories, start=story_index):
-            insert_node(parent=ro.base_tag, node=new_story.xml, index=i)
+            insert_node(parent=ro.base_tag, node=copy.deepcopy(new_story.xml), index=i)
         return ro
 
     def inspect(self):
@@ -1489,7 +1490,7 @@ class EAItemReplace(ElementAction):
             )
         remove_node(parent=story, node=item)
         for i, new_item in enumerate(self.items, start=item_index):
-            insert_node(parent=story, node=new_item.xml, index=i)
+            insert_node(parent=story, node=copy.deepcopy(new_item.xml), index=i)
         return ro
 
     def inspect(self):
@@ -1682,7 +1683,7 @@ class EAStoryInsert(ElementAction):
                 logger.warning(msg)
                 warnings.warn(msg, DuplicateStoryWarning)
             else:
-                insert_node(parent=ro.base_tag, node=new_story.xml, index=i)
+                insert_node(parent=ro.base_tag, node=copy.deepcopy(new_story.xml), index=i)
                 ro_story_ids.add(new_story.id)
                 i += 1
         return ro
@@ -1760,7 +1761,7 @@ class EAItemInsert(ElementAction):
                     f"{self.__class__.__name__} error in {self.message_id} - item not found"
                 )
         for i, new_item in enumerate(self.items, start=item_index):
-            insert_node(parent=story, node=new_item.xml, index=i)
+            insert_node(parent=story, node=copy.deepcopy(new_item.xml), index=i)
         return ro
 
     def inspect(self):
